@@ -49,7 +49,12 @@ def configs(tier):
 
 
 def jobs(tier):
-    return [("gvc.props.c20", "ob_signature", dict(cfg=c)) for c in configs(tier)] + [("gvc.props.c20", "ob_canary", {})]
+    out = [("gvc.props.c20", "ob_signature", dict(cfg=c)) for c in configs(tier)] + [("gvc.props.c20", "ob_canary", {})]
+    # dependency: every equivariant model ends in a ConvContract, replaced here by its functional contract ("exactly the
+    # reachable requested types, in the order of target_keys, with the requested channels"), which is owned by C11
+    from .common import dep_jobs
+    out += dep_jobs("gvc.props.c11", lambda fn, kw: fn in ("ob_call", "ob_init"))
+    return out
 
 
 def ob_signature(cfg):
